@@ -65,3 +65,24 @@ Theorem C12_transforms_of_a_catching_node : forall m p dat d e0 c, p_catch p = S
      if e0 then v else snd (sem_pts_loop (fun q e => mk_unknown_issue q (dtype_of (p_kind p)) e) true (p_pts p) v).
 Proof. exact catch_with_transforms. Qed.
 Print Assumptions C12_transforms_of_a_catching_node.
+(* CustomFunc as the execution root (its typed Parse / Validate): called once with the value the type assertion
+   yields / the value that is there; a false verdict is one issue of type custom; the destination is that value *)
+Theorem C12_custom_root_parse : forall conv t v x d e0, conv v = Some x ->
+  sem Parse (SCustom conv t) (DVal v) d e0
+  = ((rcall (t_id t) CbCustom (Some x) ++ (if t_ok t x then [] else [RI [] (fun q => mk_test_issue q "custom" t)]))%list, x).
+Proof. exact custom_root_parse. Qed.
+Print Assumptions C12_custom_root_parse.
+Theorem C12_custom_root_wrong_type : forall conv t v d e0, conv v = None ->
+  sem Parse (SCustom conv t) (DVal v) d e0 = ([RI [] (fun q => mk_coerce_issue q "custom")], d).
+Proof. exact custom_root_wrong_type. Qed.
+Print Assumptions C12_custom_root_wrong_type.
+Theorem C12_custom_root_validate : forall conv t dat d e0,
+  sem Validate (SCustom conv t) dat d e0
+  = ((rcall (t_id t) CbCustom (Some d) ++ (if t_ok t d then [] else [RI [] (fun q => mk_test_issue q "custom" t)]))%list, d).
+Proof. exact custom_root_validate. Qed.
+Print Assumptions C12_custom_root_validate.
+Theorem C12_custom_root_engine : forall conv t v x d, conv v = Some x ->
+  o_dest (run Parse (SCustom conv t) (DVal v) d) = x /\
+  (t_ok t x = true -> o_issues (run Parse (SCustom conv t) (DVal v) d) = []).
+Proof. exact custom_root_engine. Qed.
+Print Assumptions C12_custom_root_engine.
